@@ -197,8 +197,10 @@ impl<'a> Minimiser<'a> {
     }
 
     fn normalise_config(&mut self, mut cur: Scenario) -> Scenario {
+        // raw injected datagrams were encoded for this id width / CRC setting / sequence numbers
+        let has_raw = cur.script.iter().any(|e| matches!(e, Entry::Inject { what: What::Raw(_), .. }));
         let mut tries: Vec<Box<dyn Fn(&mut Scenario)>> = vec![
-            Box::new(|s| s.ents.iter_mut().for_each(|e| e.crc = false)),
+            Box::new(move |s| if !has_raw { s.ents.iter_mut().for_each(|e| e.crc = false) }),
             Box::new(|s| s.ents.iter_mut().for_each(|e| e.nak_delay_ms = 0)),
             Box::new(|s| s.ents.iter_mut().for_each(|e| e.nak_immediate = false)),
             Box::new(|s| s.lat_us = 1000),
@@ -210,8 +212,8 @@ impl<'a> Minimiser<'a> {
             Box::new(|s| s.ents.iter_mut().for_each(|e| e.t_nak = 2)),
             Box::new(|s| s.ents.iter_mut().for_each(|e| e.t_inact = 3)),
             Box::new(|s| s.ents.iter_mut().for_each(|e| e.limit = 2)),
-            Box::new(|s| s.idw = 2),
-            Box::new(|s| s.ents.iter_mut().for_each(|e| e.seq0 = 0)),
+            Box::new(move |s| if !has_raw { s.idw = 2 }),
+            Box::new(move |s| if !has_raw { s.ents.iter_mut().for_each(|e| e.seq0 = 0) }),
             Box::new(|s| s.ents.iter_mut().for_each(|e| e.null_cksum = false)),
             Box::new(|s| s.ents.iter_mut().for_each(|e| e.handlers.clear())),
             Box::new(|s| s.rt_seed = 1),
